@@ -61,15 +61,15 @@ def binarySearch (probe : Nat → Probe) (lo hi : Nat) (last : Option Nat) : Fin
 termination_by hi + 1 - lo
 decreasing_by all_goals omega
 
-/-- The heights probed, in order (the `GetHashByNo` requests the finder sends). -/
+/-- The heights asked of the remote peer, in order (the `GetHashByNo` requests the finder sends;
+a height whose local hash is missing is not asked). -/
 def bsProbes (probe : Nat → Probe) (lo hi : Nat) : List Nat :=
   if lo ≤ hi then
-    (lo + hi) / 2 ::
-      match probe ((lo + hi) / 2) with
-      | .localErr => []
-      | .remoteErr => []
-      | .same => bsProbes probe ((lo + hi) / 2 + 1) hi
-      | .diff => if (lo + hi) / 2 = 0 then [] else bsProbes probe lo ((lo + hi) / 2 - 1)
+    match probe ((lo + hi) / 2) with
+    | .localErr => []
+    | .remoteErr => [(lo + hi) / 2]
+    | .same => (lo + hi) / 2 :: bsProbes probe ((lo + hi) / 2 + 1) hi
+    | .diff => (lo + hi) / 2 :: (if (lo + hi) / 2 = 0 then [] else bsProbes probe lo ((lo + hi) / 2 - 1))
   else []
 termination_by hi + 1 - lo
 decreasing_by all_goals omega
@@ -316,20 +316,21 @@ def pushRetry : List Task → Task → List Task
   | [], t => [t]
   | c :: r, t => if t.startNo < c.startNo then t :: c :: r else c :: pushRetry r t
 
-/-- `processFailedTask(task, false)` with `PeerSet.processPeerFail`: the task's peer gets one more
-failure and goes to the bad list at `MaxPeerFailCount`, otherwise back to the free list; the task
-goes to the retry queue; `ErrAllPeerBad` when every peer is bad. A task without a peer is a nil
-dereference in Go. -/
+/-- `PeerSet.processPeerFail(peer, false)` for a peer whose fail count has just been incremented:
+to the bad list at `MaxPeerFailCount`, otherwise to the back of the free list. -/
+def failPeer (s : St) (p : Peer) : St :=
+  if p.failCnt ≥ maxPeerFailCount then { s with bad := s.bad + 1 } else { s with free := s.free ++ [p] }
+
+/-- `processFailedTask(task, false)`: the task's peer gets one more failure (`failPeer`), the task
+goes to the retry queue with `retry+1` and no peer; `ErrAllPeerBad` when every peer is bad. A task
+without a peer is a nil dereference in Go. -/
 def failTask (s : St) (t : Task) : Except Err St :=
   match t.peer with
   | none => .error .panic
   | some p =>
-    let p := { p with failCnt := p.failCnt + 1 }
-    let s := if p.failCnt ≥ maxPeerFailCount then { s with bad := s.bad + 1 }
-             else { s with free := s.free ++ [p] }
-    let t := { t with retry := t.retry + 1, peer := none }
-    let s := { s with retryQ := pushRetry s.retryQ t }
-    if s.total = s.bad then .error .allPeerBad else .ok s
+    let s1 := failPeer s { p with failCnt := p.failCnt + 1 }
+    let s2 := { s1 with retryQ := pushRetry s1.retryQ { t with retry := t.retry + 1, peer := none } }
+    if s2.total = s2.bad then .error .allPeerBad else .ok s2
 
 /-- `addNewFetchTasks`: cut a hash set into tasks of at most `maxFetchSize` hashes.
 (`fuel` bounds the loop; `hashes.length` iterations suffice when `size > 0`.) -/
